@@ -24,9 +24,42 @@ type msg struct {
 	framed bool
 	ctype  string
 	fault  byte // 'n' | 'r' | 'd'
+	// shape: everything else about the message (status code, method, header / cookie / query
+	// shapes, kind of body), an index into the tables below; -1 = derived from the tag. The
+	// model carries it as `Msg.content` and never looks at it.
+	shape int
 }
 
-var plainMsg = msg{fault: 'n'}
+var plainMsg = msg{fault: 'n', shape: -1}
+
+// The recorded messages are not all "GET → 200": the property speaks of every exchange.
+var resStatuses = []int{200, 101, 204, 100, 304, 404, 500, 0, 999, 301, 103, 199, 206, 302, 400, 418, 503, 599, 201, 102}
+var reqMethods = []string{"GET", "CONNECT", "HEAD", "POST", "PUT", "DELETE", "OPTIONS", "PATCH", ""}
+
+const resVariants = 5 // headers: none | two Set-Cookie | Location | multi-valued + odd names | gzip (valid)
+const reqVariants = 4 // none | query string | cookies | multi-valued headers
+
+var nResShapes = len(resStatuses) * resVariants
+var nReqShapes = len(reqMethods) * reqVariants
+
+// shapeOf: the shape a message of operation `tag` gets when the op does not name one.
+func shapeOf(m msg, tag, n int) int {
+	if m.shape >= 0 {
+		return m.shape % n
+	}
+	return (tag*7 + tag/n) % n
+}
+
+var gzippedBody = func() []byte {
+	var zb bytes.Buffer
+	zw := gzip.NewWriter(&zb)
+	zw.Write([]byte("response body"))
+	zw.Close()
+	return zb.Bytes()
+}()
+
+const tagHeader = "X-Verif-Tag"
+const statusHeader = "X-Verif-Status"
 
 var errInjected = errors.New("verif: injected body read error")
 
@@ -185,12 +218,27 @@ type built struct {
 // distinguish (Content-Length vs chunked framing, nil vs NoBody) are picked from the tag, so a
 // replay rebuilds the same message.
 func mkReqMsg(id string, tag int, m msg, g *gate, yield func()) built {
-	u, err := url.Parse(urlPrefix + id + "/" + strconv.Itoa(tag))
+	sh := shapeOf(m, tag, nReqShapes)
+	target := urlPrefix + id + "/" + strconv.Itoa(tag)
+	variant := sh / len(reqMethods)
+	if variant == 1 {
+		target += "?q=1&q=two&empty=&%7Ekey=v%20w"
+	}
+	u, err := url.Parse(target)
 	if err != nil {
 		panic(err)
 	}
-	req := &http.Request{Method: "GET", URL: u, Proto: "HTTP/1.1", ProtoMajor: 1, ProtoMinor: 1,
+	req := &http.Request{Method: reqMethods[sh%len(reqMethods)], URL: u, Proto: "HTTP/1.1", ProtoMajor: 1, ProtoMinor: 1,
 		Header: http.Header{}, Host: u.Host}
+	switch variant {
+	case 2:
+		req.Header.Add("Cookie", "sid=abc; theme=dark")
+		req.Header.Add("Cookie", "broken")
+	case 3:
+		req.Header["Accept"] = []string{"text/html", "*/*;q=0.1"}
+		req.Header["X-Empty"] = []string{""}
+		req.Header["x-lower-case"] = []string{"kept as is"}
+	}
 	if m.ctype != "" {
 		req.Header.Set("Content-Type", m.ctype)
 	}
@@ -217,7 +265,6 @@ func mkReqMsg(id string, tag int, m msg, g *gate, yield func()) built {
 		}
 		return out
 	}
-	req.Method = "POST"
 	out.body = &body{data: data, fail: m.fault == 'r', g: g, yield: yield}
 	req.Body = out.body
 	if tag%3 == 0 {
@@ -233,8 +280,29 @@ func mkReqMsg(id string, tag int, m msg, g *gate, yield func()) built {
 }
 
 func mkResMsg(tag int, m msg, g *gate, yield func()) built {
-	res := &http.Response{StatusCode: 1000 + tag, Proto: "HTTP/1.1", ProtoMajor: 1, ProtoMinor: 1,
-		Header: http.Header{}}
+	sh := shapeOf(m, tag, nResShapes)
+	status := resStatuses[sh%len(resStatuses)]
+	if m.fault == 'd' && (status == http.StatusNoContent || status == http.StatusPartialContent) {
+		status = 200 // messageview does not decode 204 / 206: the decode fault would not be one
+	}
+	res := &http.Response{StatusCode: status, Status: strconv.Itoa(status) + " " + http.StatusText(status),
+		Proto: "HTTP/1.1", ProtoMajor: 1, ProtoMinor: 1, Header: http.Header{}}
+	// the operation tag (which RecordResponse call this was) travels in a header; the status is
+	// repeated there so that the exported entry can be checked against what was recorded
+	res.Header.Set(tagHeader, strconv.Itoa(tag))
+	res.Header.Set(statusHeader, strconv.Itoa(status))
+	variant := sh / len(resStatuses)
+	switch variant {
+	case 1:
+		res.Header.Add("Set-Cookie", "sid=abc; Path=/; HttpOnly")
+		res.Header.Add("Set-Cookie", "pref=1; Max-Age=10")
+	case 2:
+		res.Header.Set("Location", "http://h.test/elsewhere")
+	case 3:
+		res.Header["Vary"] = []string{"Accept", "Cookie"}
+		res.Header["X-Empty"] = []string{""}
+		res.Header["x-lower-case"] = []string{"kept as is"}
+	}
 	if m.ctype != "" {
 		res.Header.Set("Content-Type", m.ctype)
 	}
@@ -252,6 +320,10 @@ func mkResMsg(tag int, m msg, g *gate, yield func()) built {
 			}
 		}
 		data := []byte("response body")
+		if variant == 4 {
+			data = gzippedBody
+			res.Header.Set("Content-Encoding", "gzip")
+		}
 		out.body = &body{data: data, g: g, yield: yield}
 		res.Body, res.ContentLength = out.body, int64(len(data))
 	case 'r':
